@@ -709,9 +709,18 @@ def as_symdt(d):
     return SymDatetime(real_wall(d), d.tzinfo, (d.year, d.month, d.day))
 
 
+_MIN_WALL = 1 * 86400 * 1000000
+_MAX_WALL = (3652059 + 1) * 86400 * 1000000 - 1
+
+
 def mk_dt(wall, tz):
     if isinstance(wall, int) and not isinstance(tz, SymTz):
         return wall_to_real(wall, tz)
+    # datetime arithmetic leaves 0001-01-01 .. 9999-12-31 with OverflowError
+    with core.range_check():
+        bad = not (_MIN_WALL <= wall) or not (wall <= _MAX_WALL)
+    if bad:
+        raise OverflowError('date value out of range')
     return SymDatetime(wall, tz)
 
 
